@@ -90,4 +90,16 @@ MUTANTS = [
     ('c01-getdata-tuple-to-list', ['C01', 'C07', 'C11'], MREC, "return pickle_copy(self.get_data_direct(key))", "import json as _j\n        from jsonpickle import encode as _e, decode as _d\n        return _d(_e(self.get_data_direct(key), unpicklable=True).replace('py/tuple', 'py/seq'))"),
     ('c01-property-input-not-intercepted-in-replay', ['C01', 'C02'], TR, "            def decorated_function(*args, **kwargs):\n                if not self._should_intercept:\n                    return func(*args, **kwargs)\n\n                try:\n                    formatted_alias",
      "            def decorated_function(*args, **kwargs):\n                if not self._should_intercept or (is_property and self.in_playback_mode):\n                    return func(*args, **kwargs)\n\n                try:\n                    formatted_alias"),
+    # ---- C03
+    ('c03-counter-global', ['C03'], TR, "                self._invoke_counter[alias] += 1\n                invocation_number = self._invoke_counter[alias]",
+     "                self._invoke_counter['*'] += 1\n                invocation_number = self._invoke_counter['*']"),
+    ('c03-kwargs-dropped', ['C03'], TR, "value = {'args': list(args), 'kwargs': kwargs}", "value = {'args': list(args), 'kwargs': {}}"),
+    ('c03-result-keys-leak', ['C03', 'C01'], TR, "if key.startswith('output:') and\n                           not key.endswith('result')]", "if key.startswith('output:')]"),
+    ('c03-op-output-omitted-on-exception', ['C03', 'C18'], TR, "        except Exception as ex:\n            self._record_output(TapeRecorder.OPERATION_OUTPUT_ALIAS, invocation_number=1,\n                                args=[self._serializable_exception_form(ex)], kwargs={})\n",
+     "        except Exception as ex:\n"),
+    ('c03-playback-outputs-dedup', ['C03'], TR, "            self._playback_outputs.append(Output(interception_key, value))\n            return",
+     "            if not any(o.value == value for o in self._playback_outputs):\n                self._playback_outputs.append(Output(interception_key, value))\n            return"),
+    ('c03-handler-skipped-in-replay', ['C03'], TR, "        if data_handler:\n            try:\n                value = data_handler.prepare_output_for_recording",
+     "        if data_handler and not self.in_playback_mode:\n            try:\n                value = data_handler.prepare_output_for_recording"),
+    ('c03-args-by-reference-kwargs-shared', ['C03'], TR, "value = {'args': list(args), 'kwargs': kwargs}", "value = {'args': list(args[:1]), 'kwargs': kwargs}"),
 ]
